@@ -388,6 +388,8 @@ def slot_desc(name, prop):
         embedded = ["stix_objects", prop.contained.spec_version]
     elif type(prop) is P.ObservableProperty:
         embedded = ["observables", prop.spec_version]
+    elif type(prop) is P.DictionaryProperty:
+        embedded = ["dict", prop.spec_version]
     return {"name": name, "ptype": type(prop).__name__, "required": bool(prop.required), "embedded": embedded,
             "default": hasattr(prop, "default"), "fixed": hasattr(prop, "_fixed_value"),
             "objref": ref, "contained": contained,
